@@ -75,13 +75,15 @@ def grad_solve(argnum, ans, a, b):
         onp.lib.NumpyVersion(onp.__version__) < "2.0.0" and anp.ndim(b) == anp.ndim(a) - 1
     )
     updim = lambda x: x[..., None] if b_holds_vectors else x
+    # the cotangent holds vectors exactly when b does; as columns they cannot be taken for a matrix
+    solve_t = lambda g: solve(T(a), g[..., None])[..., 0] if b_holds_vectors else solve(T(a), g)
     # a and b broadcast against each other over the leading (stack) dimensions
     if argnum == 0:
         return lambda g: match_complex(
-            a, unbroadcast(-_dot(updim(solve(T(a), g)), T(updim(ans))), anp.metadata(a))
+            a, unbroadcast(-_dot(updim(solve_t(g)), T(updim(ans))), anp.metadata(a))
         )
     else:
-        return lambda g: match_complex(b, unbroadcast(solve(T(a), g), anp.metadata(b)))
+        return lambda g: match_complex(b, unbroadcast(solve_t(g), anp.metadata(b)))
 
 
 defvjp(solve, partial(grad_solve, 0), partial(grad_solve, 1))
